@@ -300,39 +300,50 @@ structure SpanOut where
   size : Nat
   deriving Repr, DecidableEq
 
+/-- tail of `alloc` when an existing block `id` had room at `idx` (the block itself was committed by `scanPass`) -/
+def Alloc.allocFound (a : Alloc) (p n size : Nat) (blocks : List Block) (id idx : Nat) (wasEmpty : Bool) : Alloc × Except Err SpanOut :=
+  let g := a.cfg.poolGran p
+  let a := { a with blocks := blocks, allocCount := a.allocCount + 1 }
+  let a := a.setPool p fun q =>
+    { q with totalUsed := q.totalUsed + n, emptyCount := if wasEmpty then q.emptyCount - 1 else q.emptyCount }
+  let bs := match a.findBlock id with | some b => b.blockSize | none => 0
+  (a, .ok { blk := id, pool := p, blockSize := bs, off := idx * g, size })
+
+/-- tail of `alloc` when no block had room: a new block is mapped, inserted, and the span is its first allocation -/
+def Alloc.allocNew (a : Alloc) (p n size : Nat) (blocks : List Block) : Alloc × Except Err SpanOut :=
+  let g := a.cfg.poolGran p
+  let a := { a with blocks := blocks }
+  let blockSize := idealBlockSize a p size
+  let b := newBlock a p blockSize
+  let a := { a with nextId := a.nextId + 1 }
+  let idx := b.padN
+  let a := a.insertBlock b
+  -- `block->_search_start += area_size; block->_largest_unused_area -= area_size;` then the common tail
+  let a := a.modifyBlock b.id fun b =>
+    ({ b with searchStart := b.searchStart + n, largest := b.largest - n }).markAllocated idx (idx + n)
+  let a := { a with allocCount := a.allocCount + 1 }
+  let a := a.setPool p fun q => { q with totalUsed := q.totalUsed + n }
+  (a, .ok { blk := b.id, pool := p, blockSize, off := idx * g, size })
+
+/-- `alloc` after the size checks: `size` is the request aligned to the base granularity -/
+def Alloc.allocIn (a : Alloc) (size : Nat) : Alloc × Except Err SpanOut :=
+  let p := sizeToPoolId a.cfg size
+  let g := a.cfg.poolGran p
+  let n := (size + g - 1) / g
+  let cur := (a.pool p).cursor.getD 0
+  -- blocks of the pool from the cursor to the end of the list, then from the first block to the cursor
+  let r1 := scanPass (fun b => b.pool == p && cur ≤ b.id) n a.blocks
+  let r2 := if r1.2.isSome then r1 else scanPass (fun b => b.pool == p && b.id < cur) n r1.1
+  match r2.2 with
+  | some (id, idx, wasEmpty) => a.allocFound p n size r2.1 id idx wasEmpty
+  | none => a.allocNew p n size r2.1
+
 /-- `JitAllocator::alloc` -/
 def Alloc.alloc (a : Alloc) (reqSize : Nat) : Alloc × Except Err SpanOut :=
   let size := alignUp reqSize a.cfg.gran
   if size = 0 then (a, .error .InvalidArgument)
   else if size - 1 ≥ 2147483647 then (a, .error .TooLarge)
-  else
-    let p := sizeToPoolId a.cfg size
-    let g := a.cfg.poolGran p
-    let n := (size + g - 1) / g
-    let cur := (a.pool p).cursor.getD 0
-    -- blocks of the pool from the cursor to the end of the list, then from the first block to the cursor
-    let r1 := scanPass (fun b => b.pool == p && cur ≤ b.id) n a.blocks
-    let r2 := if r1.2.isSome then r1 else scanPass (fun b => b.pool == p && b.id < cur) n r1.1
-    match r2.2 with
-    | some (id, idx, wasEmpty) =>
-      let a := { a with blocks := r2.1, allocCount := a.allocCount + 1 }
-      let a := a.setPool p fun q =>
-        { q with totalUsed := q.totalUsed + n, emptyCount := if wasEmpty then q.emptyCount - 1 else q.emptyCount }
-      let bs := match a.findBlock id with | some b => b.blockSize | none => 0
-      (a, .ok { blk := id, pool := p, blockSize := bs, off := idx * g, size })
-    | none =>
-      let a := { a with blocks := r2.1 }
-      let blockSize := idealBlockSize a p size
-      let b := newBlock a p blockSize
-      let a := { a with nextId := a.nextId + 1 }
-      let idx := b.padN
-      let a := a.insertBlock b
-      -- `block->_search_start += area_size; block->_largest_unused_area -= area_size;` then the common tail
-      let a := a.modifyBlock b.id fun b =>
-        ({ b with searchStart := b.searchStart + n, largest := b.largest - n }).markAllocated idx (idx + n)
-      let a := { a with allocCount := a.allocCount + 1 }
-      let a := a.setPool p fun q => { q with totalUsed := q.totalUsed + n }
-      (a, .ok { blk := b.id, pool := p, blockSize, off := idx * g, size })
+  else a.allocIn size
 
 /-- `JitAllocator::release(rx)` for a non-null `rx` = (block id, byte offset) -/
 def Alloc.release (a : Alloc) (blk off : Nat) : Alloc × Except Err Unit :=
@@ -398,18 +409,20 @@ def wipeOut (cfg : Config) (b : Block) : Block :=
     let b := if cfg.fillUnused then { b with mem := List.zipWith (fun u m => if u then patColour cfg else m) b.used b.mem } else b
     b.clear
 
-/-- `JitAllocator::reset` (fixes C09-3: no stale tree links to model, C09-4: allocation_count) -/
+/-- `JitAllocator::reset` (fixes C09-3: no stale tree links to model, C09-4: allocation_count).  Per pool the first block of the
+list is kept (wiped and re-inserted into the emptied pool) unless the reset is hard or kImmediateRelease is set; `pool.reset()`
+does not touch `empty_block_count`. -/
+def Alloc.keeps (a : Alloc) (hard : Bool) (b : Block) : Bool :=
+  (!hard && !a.cfg.immediate) && (match (a.poolBlocks b.pool).head? with | some f => f.id == b.id | none => false)
+
 def Alloc.reset (a : Alloc) (hard : Bool) : Alloc :=
-  let keepOne := !hard && !a.cfg.immediate
-  let step (acc : Alloc) (p : Nat) : Alloc :=
-    let acc := acc.setPool p fun q => { q with cursor := none, blockCount := 0, totalSize := 0, totalUsed := 0, totalOverhead := 0 }
-    match (a.poolBlocks p).head? with
-    | some b => if keepOne then (acc.insertBlock (wipeOut a.cfg b)).setPool p fun q => { q with emptyCount := 1 } else acc
-    | none => acc
-  let a0 : Alloc := { a with blocks := [], allocCount := 0 }
-  let a1 := (List.range a.cfg.poolCount).foldl step a0
-  -- `insertBlock` appended pool by pool: restore creation order (the per-pool lists are what the C++ has)
-  { a1 with blocks := a.blocks.filterMap fun b => a1.blocks.find? (·.id == b.id) }
+  let kept := a.blocks.filterMap fun b => if a.keeps hard b then some (wipeOut a.cfg b) else none
+  let pools := a.pools.mapIdx fun p q =>
+    match kept.find? (·.pool == p) with
+    | some b => { cursor := some b.id, blockCount := 1, emptyCount := 1, totalSize := b.areaSize, totalUsed := b.areaUsed
+                  totalOverhead := bitVectorBytes b.areaSize * 2 }
+    | none => { q with cursor := none, blockCount := 0, totalSize := 0, totalUsed := 0, totalOverhead := 0 }
+  { a with blocks := kept, pools, allocCount := 0 }
 
 structure Stats where
   blocks : Nat
